@@ -257,7 +257,53 @@ def C03(tier):
                 assumptions=SORT_ASSUME[:1] + NAN_ASSUME[:1], trusted=["address projection of views ((as_ptr - base)/size, shape, strides as reported by ndarray)"])
 
 
-PLANS = {"C15": C15, "C02": C02, "C16": C16, "C04": C04, "C01": C01, "C18": C18, "C19": C19, "C03": C03}
+def minmax_models(tier):
+    return [
+        dict(module="MinMax", name="MC_MinMax",
+             cfg=dict(constants=dict(MaxLen=q(tier, 5, 6), MaxRank=3, Emit=False), invariants=["ScanInv", "SkipScanInv", "DoneOK"], properties=["Terminates"])),
+        dict(module="MinMax", name="MC_MinMax_emit", emit=True,
+             cfg=dict(constants=dict(MaxLen=q(tier, 4, 5), MaxRank=3, Emit=True), invariants=["DoneOK", "EmitInv"])),
+    ]
+
+
+MM_ASSUME = ["PartialOrd / is_nan of the element types are lawful; values enter the specification through the rank projection "
+             "(NaN/None = 0, -0.0 and 0.0 share a rank, infinities are the extreme ranks)"]
+
+
+def C05(tier):
+    stages = [
+        dict(name="replay_model", family="minmax", trace="Trace_MinMax", profile="dev", cases_from=["MC_MinMax_emit"],
+             params={"types": "i32/f32/f64"}),
+        dict(name="random", family="minmax", trace="Trace_MinMax", profile="dev",
+             gen=dict(count=(3000, 30000), params={"kinds": "minmax"})),
+    ]
+    return dict(models=minmax_models(tier), stages=stages, nontrivial=lambda o: len(o.get("r", [])) >= 2, exhaustive=True,
+                rule="every sequence of length 0..N over ranks {NaN,1,2,3} emitted by TLC, laid out as every factorisation of its length into "
+                     "<= 3 axes (plus 0-D, 4-D and zero-length-axis shapes), C/F order and one sliced/reversed/permuted view, for i32/f32/f64; "
+                     "randomized arrays to 4-D with NaN first/last/everywhere; non-trivial = >= 2 elements",
+                assumptions=MM_ASSUME, trusted=["rank projection"])
+
+
+def C14(tier):
+    stages = [
+        dict(name="replay_model", family="minmax", trace="Trace_MinMax", profile="dev", cases_from=["MC_MinMax_emit"],
+             params={"types": "f32/f64/opt_i32/opt_u8"}),
+        dict(name="random", family="minmax", trace="Trace_MinMax", profile="dev", gen=dict(count=(4000, 40000))),
+        dict(name="lane_maps", family="nan", trace="Trace_Nan", trace_constants=FIX3, profile="dev",
+             gen=dict(count=(1500, 15000), params={"kinds": "remove_nan_nd"})),
+    ]
+    return dict(models=minmax_models(tier) + [
+                    dict(module="RemoveNan", name="MC_RemoveNan",
+                         cfg=dict(constants=dict(FIX3, MaxLen=q(tier, 5, 6), MaxStride=2, Offsets="{0, 1}", Kinds='{"float", "option"}', Emit=False),
+                                  invariants=["DoneOK", "TwinOK"]))],
+                stages=stages, nontrivial=lambda o: len(o.get("r", o.get("lanes", [0, 0]))) >= 2, exhaustive=True,
+                rule="the C05 cases with missing values for f32/f64/Option<i32>/Option<u8>: min/max/argmin/argmax_skipnan, fold_skipnan, "
+                     "indexed_fold_skipnan, visit_skipnan, fold_axis_skipnan on every axis (recording closures); quantile_axis_skipnan_mut on "
+                     "1..3-D views (none/all/some missing per lane, every strategy, scripted pivots); map_axis_skipnan_mut lanes via the nan family",
+                assumptions=MM_ASSUME + QUANT_ASSUME, trusted=["rank projection", "recording closures passed to the folds"])
+
+
+PLANS = {"C05": C05, "C14": C14, "C15": C15, "C02": C02, "C16": C16, "C04": C04, "C01": C01, "C18": C18, "C19": C19, "C03": C03}
 
 HOOK_COMMITS = ["6df096f"]
 
